@@ -147,6 +147,28 @@ def Vocab.pairs {α : Type} : Vocab α → List (CS α)
 What the harness used to flatten itself is a model constant: a program is a list of statements, `runProg` is the content
 of `gate_index_list` after executing them. -/
 
+/-- an entry `apply_state` / `to_unitary` refuse.  It stays in `gate_index_list` (so `num_qubit` and `shift_qubit_index_`
+still see it) but no register accepts it. -/
+inductive Refused where
+  /-- a parametrised gate (`rx ry rz u3 rzz`; the controlled methods do not take placeholders) whose placeholder parameter
+  was never set (`circuit.py:497-498`): a canonical `unitary` entry at its index, without an array -/
+  | placeholder (t : List Int)
+  /-- a gate of a kind outside `unitary/control/measure/custom`, such as the Kraus entries of `dephasing…`
+  (`circuit.py:509`): skipped by `num_qubit` (`:460`) and by `shift_qubit_index_` (`:477`) -/
+  | nonCanonical
+
+/-- the entry standing for a refused one: the indices are the real ones, the array is empty, so that `RawOp.compile`
+rejects it at every width (theorem `C03.refused_not_compiled`) -/
+def Refused.toRaw {α : Type} : Refused → RawOp α
+  | .placeholder t => .unitary #[] t
+  | .nonCanonical => .custom #[]
+
+/-- every method that appends a controlled entry stores the controls as a **set** (`circuit.py:59, 90, 148`:
+`set(sorted(hf_tuple_of_int(control_qubit)))`): repeated control indices collapse -/
+def RawOp.canon {α : Type} : RawOp α → RawOp α
+  | .control U c t => .control U c.eraseDups t
+  | g => g
+
 /-- a statement that cannot contain a sub-circuit -/
 inductive Stmt0 (α : Type) where
   /-- one entry appended as it is: `single_…/double_…/controlled_…_qubit_gate`, `append_gate` (also of a gate object that is
@@ -157,9 +179,8 @@ inductive Stmt0 (α : Type) where
   | call (v : Vocab α)
   /-- `shift_qubit_index_(δ)`: every entry present **so far** moves by `δ` -/
   | shift (δ : Int)
-  /-- an entry `apply_state` refuses: a placeholder gate whose parameter was never set (`circuit.py:497-498`) or a gate of a
-  kind outside `unitary/control/measure/custom` such as the Kraus entries of `dephasing…` (`circuit.py:509`) -/
-  | unsupported
+  /-- an entry `apply_state` refuses -/
+  | refused (r : Refused)
 
 /-- a statement: a basic one, or `extend_circuit(sub)` appending the entries of another circuit -/
 inductive Stmt (α : Type) where
@@ -169,21 +190,21 @@ inductive Stmt (α : Type) where
 section prog
 variable {α : Type} [Zero α] [One α] [Add α] [Sub α] [Mul α] [Neg α]
 
-/-- one basic statement acting on the entry list (`none`: the circuit can no longer be applied) -/
-def Stmt0.step (I : α) (acc : Option (List (RawOp α))) : Stmt0 α → Option (List (RawOp α))
-  | .gate g => acc.map (· ++ [g])
-  | .call v => acc.map (· ++ [v.toRaw I])
-  | .shift δ => acc.map (List.map (RawOp.shift δ))
-  | .unsupported => none
+/-- one basic statement acting on the entry list -/
+def Stmt0.step (I : α) (acc : List (RawOp α)) : Stmt0 α → List (RawOp α)
+  | .gate g => acc ++ [g.canon]
+  | .call v => acc ++ [(v.toRaw I).canon]
+  | .shift δ => acc.map (RawOp.shift δ)
+  | .refused r => acc ++ [r.toRaw]
 
-def runProg0 (I : α) (p : List (Stmt0 α)) : Option (List (RawOp α)) := p.foldl (Stmt0.step I) (some [])
+def runProg0 (I : α) (p : List (Stmt0 α)) : List (RawOp α) := p.foldl (Stmt0.step I) []
 
-def Stmt.step (I : α) (acc : Option (List (RawOp α))) : Stmt α → Option (List (RawOp α))
+def Stmt.step (I : α) (acc : List (RawOp α)) : Stmt α → List (RawOp α)
   | .base s => Stmt0.step I acc s
-  | .extend sub => do let a ← acc; let b ← runProg0 I sub; pure (a ++ b)
+  | .extend sub => acc ++ runProg0 I sub
 
 /-- `gate_index_list` after the program -/
-def runProg (I : α) (p : List (Stmt α)) : Option (List (RawOp α)) := p.foldl (Stmt.step I) (some [])
+def runProg (I : α) (p : List (Stmt α)) : List (RawOp α) := p.foldl (Stmt.step I) []
 end prog
 
 end Numqi
